@@ -35,7 +35,7 @@ ASSUMPTIONS = [
 ]
 BOUNDS = {"quick": {"depth": 2}, "thorough": {"depth": 3}}
 
-LEAVES = L_TIME + L_MEAS + L_TAG + L_FIELD + [("tags_map", "f_keys", "==", "k")]
+LEAVES = L_TIME + L_MEAS + L_TAG + L_FIELD + [("tags_map", "f_keys", "==", "k"), ("tags_mapkey", "f_ident", "j", "!=", SYM)]
 REPS = [("time", OP, SYM), ("meas", "==", "m"), ("tag", "k", OP, SYM), ("tag_exists", "k"), ("field", "f", OP, SYM), ("field_exists", "f"), ("tag_re", "k", "matches", "a|", 0), ("noop", "tag")]
 
 
